@@ -44,6 +44,18 @@ def make_cases(rng, tier, budget):
         if rng.random() < 0.5:
             hist.append(["build", {}, [["ret", ["lit", 0]]]])
         out.append({"cache": ["cache"], "name": "n", "funcs": funcs, "history": hist})
+    # a directory the USER made, holding nothing but an output of the previous build that the next build no longer
+    # produces: the commit removes the stale output and must leave the (now empty) foreign directory alone
+    for i in range((4 if tier == "quick" else 24) * budget):
+        D = [rng.choice(gen.NAMES[:4]) + "U"] if rng.random() < 0.5 else [rng.choice(gen.NAMES[:4]) + "N", "usub"]
+        funcs = {"w": {"*": [["write", ["lit", "x"]], ["ret", ["lit", 0]]]}}
+        keep = [["build_file", "k", ["kept"], "METADATA", "w", [], {}]] if rng.random() < 0.5 else []
+        root1 = [["build_file", "a", D + ["o"], "METADATA", "w", [], {}]] + keep + [["ret", ["lit", 0]]]
+        root2 = keep + [["ask", "e", "is_dir", D], ["ret", ["var", "e"]]]
+        hist = [["mutate", [["mkdir", D]]], ["build", {}, root1], ["build", {}, root2], ["build", {}, root2]]
+        if rng.random() < 0.4:
+            hist.append(["clean", None])
+        out.append({"cache": ["cache"], "name": "n", "funcs": funcs, "history": hist})
     return out
 
 
